@@ -37,7 +37,10 @@ func A31(f func(ch, ch, ch) ch) func([]<-chan float64) []<-chan float64 {
 
 // A32 adapts 3 -> 2.
 func A32(f func(ch, ch, ch) (ch, ch)) func([]<-chan float64) []<-chan float64 {
-	return func(in []<-chan float64) []<-chan float64 { a, b := f(in[0], in[1], in[2]); return []<-chan float64{a, b} }
+	return func(in []<-chan float64) []<-chan float64 {
+		a, b := f(in[0], in[1], in[2])
+		return []<-chan float64{a, b}
+	}
 }
 
 // A33 adapts 3 -> 3.
